@@ -44,9 +44,14 @@ def run(tier):
             jobs.append(dict(base, harness="VerifC01Coverage", params={"sys": sys, "n": n}, max_witnesses=2, witness_every=100))
     EXT = {3: ("Maven", 20), 6: ("PyPI", 24), 7: ("RubyGems", 17)}
     QUICK_T = {3: [2, 5, 8], 6: [1, 5, 10, 13, 19], 7: [1, 5, 6, 9]}
+    QUICK_T2 = {3: [1, 4, 7]}
     for sys, (_, nt) in EXT.items():
         ts = QUICK_T[sys] if tier == "quick" else list(range(nt))
-        for ta, tb, tc in itertools.product(ts, repeat=3):
+        triples = list(itertools.product(ts, repeat=3))
+        if tier == "quick" and sys in QUICK_T2:
+            # a second family: separators ('.' against '-') and known against unknown qualifiers
+            triples += list(itertools.product(QUICK_T2[sys], repeat=3))
+        for ta, tb, tc in triples:
             jobs.append(dict(base, harness="VerifC01ExtLaws", params={"sys": sys, "ta": ta, "tb": tb, "tc": tc}))
     # history independence across systems (pairs of systems, same strings)
     syspairs = [(0, 4), (4, 1), (3, 0), (6, 4), (1, 2), (5, 4), (7, 0), (4, 8)] if tier == "quick" else [(x, y) for x in range(9) for y in range(9) if x != y]
